@@ -119,7 +119,7 @@ def run_case(case, ctx):
         base = ["logistic", "dummy-clf", "tree-clf", "cost-logistic"][rng.randint(4)]
     else:
         y = X[:, 0] * 2 + numpy.sin(3 * X[:, -1]) + rng.randn(n) * 0.1
-        base = ["linear", "dummy-reg", "tree-reg"][rng.randint(3)]
+        base = ["linear", "dummy-reg", "tree-reg", "nan-outside"][rng.randint(4)]
     wkind = ["none", "none", "random", "zeros"][rng.randint(4)]
     w = None
     if wkind != "none":
@@ -292,8 +292,9 @@ def run_case(case, ctx):
             model = me if e < 0 else m0.estimators_[e]
             exp[mask] = getattr(model, meth)(Q[mask])
         ctx.hit("predict.routing")
-        if got.shape[0] != len(Q) or not numpy.allclose(got, exp, rtol=1e-12, atol=1e-12):
-            bad = ~numpy.isclose(got.reshape(len(Q), -1), exp.reshape(len(Q), -1), rtol=1e-12, atol=1e-12).all(axis=1)
+        if got.shape[0] != len(Q) or not numpy.allclose(got, exp, rtol=1e-12, atol=1e-12, equal_nan=True):
+            bad = ~numpy.isclose(got.reshape(len(Q), -1), exp.reshape(len(Q), -1), rtol=1e-12, atol=1e-12,
+                                 equal_nan=True).all(axis=1)
             where = "unseen-bucket" if (bad & unseen).any() else "seen-bucket"
             ctx.violation(K + "%s/not-the-bucket-model/%s" % (meth, where),
                           "%d rows do not get the output of their bucket's model (%s rows; fallback = global model)"
@@ -330,7 +331,7 @@ def run_case(case, ctx):
             ctx.hit("history.refit_refused_by_binner")
             after = outputs(m0)
             for meth in methods:
-                if after[meth].shape != ref[meth].shape or not numpy.array_equal(after[meth], ref[meth]):
+                if after[meth].shape != ref[meth].shape or not numpy.array_equal(after[meth], ref[meth], equal_nan=True):
                     chg = numpy.where((after[meth].reshape(len(Q), -1) != ref[meth].reshape(len(Q), -1)).any(axis=1))[0]
                     where = "unseen-bucket" if unseen[chg].any() else "seen-bucket"
                     ctx.violation(K + "%s/changed-by-refused-refit/%s" % (meth, where),
@@ -342,7 +343,7 @@ def run_case(case, ctx):
     def same(o, tag, monitor):
         for meth in methods:
             ctx.hit(monitor)
-            if o[meth].shape != ref[meth].shape or not numpy.array_equal(o[meth], ref[meth]):
+            if o[meth].shape != ref[meth].shape or not numpy.array_equal(o[meth], ref[meth], equal_nan=True):
                 diff = float(numpy.abs(o[meth].astype(float) - ref[meth].astype(float)).max()) \
                     if o[meth].shape == ref[meth].shape else -1.0
                 ctx.violation(K + "%s/%s" % (monitor.replace(".", "-"), "borrowing" if (clf and borrowers >= 2)
